@@ -338,11 +338,11 @@ func confirmAndMinimise(b builds, cfg tierCfg, viol *proto.Record) *proto.Record
 
 func compact(r *proto.Record) *proto.Record {
 	c := cloneRec(r)
-	remap := map[int8]int8{}
+	remap := map[int16]int16{}
 	var tasks []proto.TaskRec
 	for i, t := range c.Run.Tasks {
 		if len(t.Ops) > 0 {
-			remap[int8(i)] = int8(len(tasks))
+			remap[int16(i)] = int16(len(tasks))
 			tasks = append(tasks, t)
 		}
 	}
@@ -368,7 +368,7 @@ func compact(r *proto.Record) *proto.Record {
 		ev = append(ev, e)
 	}
 	c.Run.Events = ev
-	if f, ok := remap[int8(c.Run.First)]; ok {
+	if f, ok := remap[int16(c.Run.First)]; ok {
 		c.Run.First = int(f)
 	} else {
 		c.Run.First = 0
